@@ -22,7 +22,7 @@ The theorems say that the model about which C03 (`index_exact`), C04 and C05 are
 `keyOf`, `View.recNodes`, `View.buildIndex` (and the text layer `ConvText.pathTokens`, `parseStableItems`, `parseUnstableSteps`) —
 computes exactly what these translated definitions compute, exceptions included:
 
-* `tokens_gen`, `for2_gen`, `scan_gen`, `pySlice_window`, `core_gen`: the pieces;
+* `tokens_gen`, `for2_gen`, `scan_gen`, `ix_slice_window`, `core_gen`: the pieces;
 * `convertCoord_gen`: `Gen.convertCoord` on the fields of a line = `Conv.convertCoord` on the parsed items;
 * `for_a_gen`: the `try / except KeyError` = `idxAdd` under `keyOf`; `unstable_gen`: the unstable route;
 * `while_step`, `while_eof`, `while_gen`, `run_gen`: one record, the end of the file, the whole loop, the pickled object;
@@ -89,7 +89,7 @@ theorem scan_gen (qs qe : Int) (win : List Seg) (acc : List String) :
     · simp [h]
 
 /-- what `search_intervals` returns from a non-negative start: the sentinel, or a non-empty range of non-negative indices -/
-theorem searchIv_range (iv : List Seg) (qs qe : Int) :
+theorem ix_searchIv_range (iv : List Seg) (qs qe : Int) :
     ∀ (fuel : Nat) (s e : Int), 0 ≤ s → ∀ r, Conv.searchIv iv qs qe fuel s e = some r → r = (-1, -1) ∨ (0 ≤ r.1 ∧ r.1 ≤ r.2) := by
   intro fuel
   induction fuel with
@@ -111,9 +111,9 @@ theorem searchIv_range (iv : List Seg) (qs qe : Int) :
             · injection h with h; subst h; exact Or.inr ⟨hs, hse⟩
     · injection h with h; subst h; exact Or.inl rfl
 
-theorem pySlice_window (iv : List Seg) (r : Int × Int) (h : r = (-1, -1) ∨ (0 ≤ r.1 ∧ r.1 ≤ r.2)) :
-    Gen.pySlice iv r.1 (r.2 + 1) = window iv r := by
-  unfold Gen.pySlice window
+theorem ix_slice_window (iv : List Seg) (r : Int × Int) (h : r = (-1, -1) ∨ (0 ≤ r.1 ∧ r.1 ≤ r.2)) :
+    Gen.ixSlice iv r.1 (r.2 + 1) = window iv r := by
+  unfold Gen.ixSlice window
   rcases h with rfl | ⟨h1, h2⟩
   · simp
     omega
@@ -148,7 +148,7 @@ theorem convertCoord_fold (reference : String → List Seg) (items : List SItem)
 /-- search, slice and scan of one step, as translated, are the model's search, window and filter -/
 theorem core_gen (iv : List Seg) (qs qe : Int) (acc : List String) :
     ((Gen.searchIv iv qs qe (iv.length + 2) (0 : Int) (iv.length : Int)).bind fun v =>
-        some ((Gen.pySlice iv v.1 (v.2 + (1 : Int))).foldl (Gen.convertCoord_for2 qs qe) acc))
+        some ((Gen.ixSlice iv v.1 (v.2 + (1 : Int))).foldl (Gen.convertCoord_for2 qs qe) acc))
       = match Conv.searchIv iv qs qe (iv.length + 2) 0 iv.length with
         | none => none
         | some r => some (acc ++ ((window iv r).filter (fun sg => overlapCase sg qs qe ≠ 0)).map (·.id)) := by
@@ -157,7 +157,7 @@ theorem core_gen (iv : List Seg) (qs qe : Int) (acc : List String) :
   | none => rfl
   | some r =>
     simp only [Option.bind_some]
-    rw [pySlice_window iv r (searchIv_range iv qs qe _ 0 _ (by omega) r h), scan_gen]
+    rw [ix_slice_window iv r (ix_searchIv_range iv qs qe _ 0 _ (by omega) r h), scan_gen]
 
 theorem for1_orient (line : List Str) (ref : String → List Seg) (acc : List String) (t : Str) (h : isOrientTok t = true) :
     Gen.convertCoord_for1 line ref acc t = some acc := by
